@@ -871,3 +871,112 @@ def _native_irregular(tier="quick", seed=0):
 
 
 JOBS = {"C16.native_irregular": _native_irregular}
+
+
+# ---------------------------------------------------------------------------------------------------------
+# _PackageLoader._parts: which members become parts, and which look-ups may fail
+
+
+@contract("C16", "C16.opc.package._PackageLoader._parts", replay=_replay_rels, timeout_ms=30000)
+def _loader_parts(c):
+    """parts = one part per name that the relationship walk reached, other than the package itself, and that the physical
+    package contains -- each built from its own name, its own content type and its own bytes.  A reached name that is NOT in
+    the package (dangling target) is skipped without any look-up for it: a KeyError can only come from a member that is
+    present but has no content type."""
+    from pptx.opc.package import _PackageLoader
+    from pyvc.gsets import str_key
+
+    c.summaries.update(OPTIONS)
+    rd = GReader()
+    DECL = z3.Function("CONTENT_TYPE_DECLARED", z3.StringSort(), z3.BoolSort())
+    CTOF = z3.Function("CONTENT_TYPE_OF", z3.StringSort(), z3.StringSort())
+    PARTID = z3.Function("PART_BUILT", z3.StringSort(), z3.StringSort(), z3.IntSort(), z3.IntSort())  # (name, content type, blob) -> part identity
+
+    class _CT:
+        __pyvc_symbolic__ = True
+
+        def sym_getitem(self, it, key):
+            from pyvc.engine import PyRaise
+
+            k = name_key(key)
+            if not it.path.branch(DECL(k)):
+                raise PyRaise(KeyError, ("no content-type for partname",))
+            return SStr([Atom("content_type", zs=CTOF(k))])
+
+    xml_rels = GDict.symbolic("xml_rels", key_of=name_key, vsort=z3.IntSort(), wrap=lambda v: z3.IntVal(0), unwrap=lambda t: SObj(None, "rels"))
+    xml_rels.key_obj = lambda term: GName(term, "reached_name")
+    xml_rels.vsort_out = z3.IntSort()
+    xml_rels.wrap_out = lambda part: part.fields["part_id"]
+    xml_rels.unwrap_out = lambda t: SObj(None, "part", part_id=t)
+    made = []
+
+    def part_factory(it, a, k):
+        args = [x for x in a if not isinstance(x, type)]
+        name, ct, pkg = args[0], args[1], args[2]
+        blob = k.get("blob", args[3] if len(args) > 3 else None)
+        made.append((name, ct, pkg, blob))
+        return SObj(None, "part", part_id=PARTID(name_key(name), str_key(ct), blob.fields["blob_id"]), built_for=name)
+
+    c.summaries["pptx.opc.package:PartFactory.__new__"] = part_factory
+    c.summaries["pptx.opc.package:PartFactory"] = part_factory
+    pkg = SObj(None, "package")
+    loader = SObj(_PackageLoader, "loader", _content_types=_CT(), _package=pkg, _package_reader=rd, _xml_rels=xml_rels)
+    out = c.run(_PackageLoader.__dict__["_parts"]._fget, loader)
+    if out.raised:
+        c.ensures("post.only_KeyError", out.exc.exc_cls is KeyError)
+        w = (c.path.ghost.get("dictcomp_raise_witness") or [None])[-1]
+        c.ensures("post.raise_has_a_witness_key", w is not None)
+        if w is not None:
+            c.ensures("post.KeyError_only_for_a_member_that_is_present", z3.And(rd.PRESENT(w), xml_rels.has(w), w != z3.StringVal("/"), z3.Not(DECL(w))))
+        return
+    r = out.value
+    ok = type(r).__name__ == "GDict"
+    c.ensures("post.is_a_mapping_by_name", ok)
+    if not ok:
+        return
+    k = c.input("probe_name", z3.String("probe_name"))
+    c.ensures("post.a_part_iff_reached_and_not_root_and_present", z3.Select(r.HAS, k) == z3.And(xml_rels.has(k), k != z3.StringVal("/"), rd.PRESENT(k)))
+    c.ensures("post.built_from_own_name_type_and_bytes", z3.Implies(z3.Select(r.HAS, k), z3.Select(r.VAL, k) == PARTID(k, CTOF(k), rd.BLOB(k))))
+    c.ensures("post.factory_given_this_package", all(m[2] is pkg for m in made) and len(made) >= 1)
+
+
+@contract("C16", "C16.opc.package._PackageLoader._load", replay=_replay_rels)
+def _loader_load(c):
+    """every part gets its relationships loaded from its OWN rels item, resolved against the same parts mapping; the look-up
+    xml_rels[partname] cannot fail because every part name is a reached name (post of _parts); the package's own rels item and
+    the parts mapping are returned."""
+    from pptx.opc.package import _PackageLoader
+    from pptx.opc.packuri import PACKAGE_URI
+    from pyvc.gsets import foreach_items
+
+    xml_rels = GDict.symbolic("xml_rels", key_of=name_key, vsort=z3.StringSort(), wrap=lambda v: v.fields["owner"], unwrap=lambda t: SObj(None, "rels_item", owner=t))
+    calls = []
+
+    def mk_part(t):
+        return SObj(None, "part", part_name=t, load_rels_from_xml=GhostFn(lambda it, a, k: calls.append((t, a)), "load_rels_from_xml"))
+
+    parts = GDict.symbolic("parts", key_of=name_key, vsort=z3.StringSort(), wrap=lambda v: v.fields["part_name"], unwrap=mk_part)
+    parts.key_obj = lambda term: GName(term, "partname")
+    q = z3.String("lq")
+    # post of _parts / _xml_rels: every part name is a key of xml_rels, which maps each key to its own rels item; the root is a key
+    c.requires(z3.ForAll([q], z3.Implies(parts.has(q), z3.And(xml_rels.has(q), parts.val(q) == q))))
+    c.requires(z3.ForAll([q], z3.Implies(xml_rels.has(q), xml_rels.val(q) == q)))
+    c.requires(xml_rels.has(z3.StringVal("/")))
+    loader = SObj(_PackageLoader, "loader", _parts=parts, _xml_rels=xml_rels)
+    c.loop_specs[("pptx.opc.package:_PackageLoader._load", 0)] = foreach_items("C16._load")
+    out = c.run(_PackageLoader._load, loader)
+    if out.raised:
+        c.fails("never_raises", "raised %s" % out.exc)
+        return
+    if c.path.ghost.get("foreach_done"):
+        g = c.path.ghost["generic_item_key"]
+        ok = len(calls) == 1
+        c.ensures("body.one_load_per_part", ok)
+        if ok:
+            owner, a = calls[0]
+            c.ensures("body.loads_own_rels_item_against_the_parts_mapping", z3.And(owner == g, a[0].fields["owner"] == g) if isinstance(a[0], SObj) and a[1] is parts else False)
+        return
+    v = out.value
+    c.ensures("post.returns_package_rels_and_parts", isinstance(v, tuple) and len(v) == 2 and isinstance(v[0], SObj) and v[1] is parts)
+    if isinstance(v, tuple) and isinstance(v[0], SObj):
+        c.ensures("post.package_rels_item_is_the_roots", v[0].fields["owner"] == z3.StringVal("/"))
